@@ -171,7 +171,11 @@ impl Ident {
 }
 #[verifier::external_body] pub struct ExprV { x: usize }
 pub enum ValueE { Ident(Ident), Other(ExprV) }
-pub enum Expr { Value(ValueE), Index { x: ExprV }, DotLookup { expected_type: TypeLayout, x: ExprV }, Other(ExprV) }
+pub enum Expr { Value(ValueE), Index { lhs_raw: Box<Expr>, x: ExprV }, DotLookup { lhs: Box<Expr>, expected_type: TypeLayout, x: ExprV }, Other(ExprV) }
+// the variable at the root of an index / field access chain
+pub open spec fn root(e: Expr) -> Option<Ident> decreases e {
+    match e { Expr::Value(ValueE::Ident(i)) => Some(i), Expr::Index { lhs_raw, .. } => root(*lhs_raw), Expr::DotLookup { lhs, .. } => root(*lhs), _ => None }
+}
 #[derive(PartialEq, Eq)]
 pub enum Op { Add, Subtract, Multiply, Divide, Modulo, Lt, Gt, Lte, Gte, Eq, Neq, And, Or, Xor, Unwrap, AddAssign, SubAssign, MulAssign, DivAssign, ModAssign, BinaryXor, BinaryOr, BinaryAnd, BitwiseLs, BitwiseRs, Is }
 pub open spec fn op_assigns(o: Op) -> bool { o is AddAssign || o is SubAssign || o is MulAssign || o is DivAssign || o is ModAssign }
@@ -209,6 +213,9 @@ def build_for_type(repo):
         Rule("R6", "lhs . for_type ( flags ) ?", "expr_for_type ( lhs , flags ) ?", why="recursive type query abstract"),
         Rule("R6", "rhs . for_type ( flags ) ?", "expr_for_type ( rhs , flags ) ?", why="recursive type query abstract"),
         Rule("R1", "index @ Expr :: Index { .. }", "Expr :: Index { .. }", why="binding of the scrutinee itself"),
+        Rule("R1", "lookup @ Expr :: DotLookup", "Expr :: DotLookup", why="binding of the scrutinee itself"),
+        Rule("R1", "index . root_ident ( )", "lhs . root_ident ( )", why="`index @ pattern` names the scrutinee"),
+        Rule("R1", "lookup . root_ident ( )", "lhs . root_ident ( )", why="`lookup @ pattern` names the scrutinee"),
         Rule("R6", "lhs . get_output_type ( & rhs , op , flags ) . with_context ( $$c )", "opt_ctx ( get_output_type ( & lhs , & rhs , op , flags ) )", why="operator table abstract; context text dropped"),
         Rule("R1", "Value :: Ident", "ValueE :: Ident", why="enum renamed in the model"),
         Rule("R6", "expr_for_type ( index , flags )", "expr_for_type ( lhs , flags )", why="`index @ pattern` names the scrutinee"),
@@ -218,12 +225,27 @@ def build_for_type(repo):
     check_closed(b, "Expr::for_type[BinOp]")
     # inside the Index arm `index` names the scrutinee: bind it
     txt = render(b, 1)
-    gen = header(log, f"{MATH}: Expr::for_type, arm Expr::BinOp") + prelude("parser.rs") + FT_SPEC + f"""
+    froot = src.fn(MATH, "root_ident", "impl Expr")
+    broot = translate(froot["body"], [Rule("R1", "Value :: Ident", "ValueE :: Ident", why="enum renamed in the model")], log, "Expr::root_ident")
+    check_closed(broot, "Expr::root_ident")
+    gen = header(log, f"{MATH}: Expr::for_type, arm Expr::BinOp; Expr::root_ident") + prelude("parser.rs") + FT_SPEC + f"""
+impl Expr {{
+    //@ OBL C10.root_ident
+    pub fn root_ident(&self) -> (r: Option<&Ident>)
+        ensures r is Some <==> root(*self) is Some, r is Some ==> *r->Some_0 == root(*self)->Some_0
+        decreases self
+    {{
+{render(broot, 2)}
+    }}
+}}
+
 //@ OBL C10.for_type.binop
 pub fn for_type_binop(lhs: &Expr, op: &Op, rhs: &Expr, flags: &Flags) -> (r: Result<TypeLayout, VErr>)
     ensures
         // C10: every operator that stores into its left operand is rejected when that operand is a const name
         (r is Ok && op_writes(*op) && lhs is Value && lhs->Value_0 is Ident) ==> !lhs->Value_0->Ident_0.read_only,
+        // ... including an element or field reached through a const variable
+        (r is Ok && op_assigns(*op) && root(*lhs) is Some) ==> !root(*lhs)->Some_0.read_only,
         // C03: an accepted binary operation is supported by the operator table for the operand types
         r is Ok ==> exists|l: TypeLayout, rt: TypeLayout| #[trigger] output_type(&l, &rt, *op, flags) == Some(r->Ok_0),
 {{
@@ -232,7 +254,8 @@ pub fn for_type_binop(lhs: &Expr, op: &Op, rhs: &Expr, flags: &Flags) -> (r: Res
 }} // verus!
 fn main() {{}}
 """
-    return gen, [Obl("C10.for_type.binop", ["C10", "C03"], fn="for_type_binop",
+    return gen, [Obl("C10.root_ident", ["C10"], fn="Expr::root_ident", desc="Expr::root_ident: the variable at the root of an index / field chain"),
+                 Obl("C10.for_type.binop", ["C10", "C03"], fn="for_type_binop",
                      desc="Expr::for_type (BinOp): `+= -= *= /= %=` and `?=` on a const name are rejected; an accepted operation has an entry in the operator table")], log
 
 
